@@ -31,6 +31,13 @@ def values(tier, rnd):
         vals.add("".join(t))
     for _ in range(400 if tier == "quick" else 6000):
         vals.add("".join(rnd.choice(ALPHA) for _ in range(rnd.randint(4, 30))))
+    # long values: pipe / read-buffer boundaries (1 KiB, 2 KiB, 4 KiB, 64 KiB) crossed by multi-byte characters
+    for n in list(range(1020, 1027)) + list(range(2044, 2050)) + [4093, 4094, 4095, 4096, 8190, 8191, 65533, 65534, 65535, 65536]:
+        vals.add("a" * n + "éé日é")
+        vals.add("a" * n + "🚀 *")
+    vals.add("é" * 700)
+    vals.add("日" * 11000 + "\n")
+    vals.add(("é \n*" * 9000))
     return sorted(vals)
 
 
@@ -131,6 +138,8 @@ def run(tier):
     def one(val):
         r2 = random.Random(int(hashlib.sha1(val.encode()).hexdigest()[:8], 16) ^ SEED)
         cfgs = allcfg if tier != "quick" else [(IFSES[0], "none")] + r2.sample(allcfg, 6)
+        if len(val) > 500:
+            cfgs = cfgs[:2] if tier == "quick" else cfgs[:8]        # long values: the buffer boundaries matter, not the configuration
         scr, exp = script(val, cfgs)
         b = run_script("bash", scr, front="file", extra_env={"X": val}, timeout=120)
         r = run_script("brush", scr, front="file", extra_env={"X": val}, timeout=240)
